@@ -9,14 +9,18 @@ import (
 	"testing"
 
 	commonpb "go.temporal.io/api/common/v1"
+	enumspb "go.temporal.io/api/enums/v1"
+	historypb "go.temporal.io/api/history/v1"
 	namespacepb "go.temporal.io/api/namespace/v1"
 	workflowservice "go.temporal.io/api/workflowservice/v1"
+	"go.temporal.io/server/api/adminservice/v1"
 	"go.temporal.io/server/common/log"
 	"google.golang.org/grpc"
 	"google.golang.org/grpc/codes"
 	"google.golang.org/grpc/metadata"
 	"google.golang.org/grpc/status"
 	"google.golang.org/protobuf/proto"
+	"google.golang.org/protobuf/reflect/protoreflect"
 
 	"github.com/temporalio/s2s-proxy/auth"
 	"github.com/temporalio/s2s-proxy/collect"
@@ -246,6 +250,84 @@ func TestC13(t *testing.T) {
 			}
 		}
 	}
+	// (5) the same for search-attribute keys, with a mapping whose targets are sources too (chain, swap) and key sets
+	// holding several overlapping keys at once (only "c", a target that is not renamed itself, is avoided)
+	saMap := [][2]string{{"a", "b"}, {"b", "c"}, {"x", "y"}, {"y", "x"}}
+	saFwd := interceptor.NewSearchAttributeTranslator(log.NewNoopLogger(), map[string]map[string]string{"ns-id": toGoMap(saMap)}, nil)
+	saBack := interceptor.NewSearchAttributeTranslator(log.NewNoopLogger(), map[string]map[string]string{"ns-id": toGoMap(invPairs(saMap))}, nil)
+	flSA := &filler{rng: rng, names: []string{"n1", ""}, keys: []string{"a", "b", "x", "y", "Other"}}
+	saTouched := 0
+	for _, r := range g.Roots {
+		for i := 0; i < per; i++ {
+			m := reflect.New(g.Types[r].rt).Interface().(proto.Message)
+			flSA.fill(m.ProtoReflect(), 4)
+			orig := proto.Clone(m)
+			_, err1 := saFwd.TranslateRequest(m)
+			mid := proto.Clone(m)
+			_, err2 := saBack.TranslateRequest(m)
+			if err1 != nil && strings.Contains(err1.Error(), "unhandled search attribute type") {
+				e.Count("unhandled_sa_type_error")
+				continue
+			}
+			a, b, c := proto.Clone(m), proto.Clone(orig), mid
+			canonBlobs(a.ProtoReflect())
+			canonBlobs(b.ProtoReflect())
+			canonBlobs(c.ProtoReflect())
+			ref := proto.Clone(orig)
+			refTranslate(ref.ProtoReflect(), refOpts{sa: toGoMap(saMap)})
+			canonBlobs(ref.ProtoReflect())
+			if !proto.Equal(c, b) {
+				saTouched++
+			}
+			e.Emit(fmt.Sprintf("# saroundtrip %d %d", r, i), "#")
+			e.Evals++
+			if err1 != nil || err2 != nil || !proto.Equal(a, b) || !proto.Equal(c, ref) {
+				e.Violation(map[string]any{"what": fmt.Sprintf("search-attribute keys: translate then inverse-translate changed a random %s, or the forward result differs from the simultaneous renaming (%v %v; round trip equal %v, forward equals reference %v)", g.Types[r].Go, err1, err2, proto.Equal(a, b), proto.Equal(c, ref)), "ops": []string{fmt.Sprintf("# saroundtrip %d %d seed %d", r, i, e.Seed)}})
+			}
+		}
+	}
+	// deterministic carriers for the overlapping keys: typed container, bare map, history blob
+	for ci, mk := range []func(map[string]*commonpb.Payload) proto.Message{
+		func(k map[string]*commonpb.Payload) proto.Message {
+			return &workflowservice.StartWorkflowExecutionRequest{SearchAttributes: &commonpb.SearchAttributes{IndexedFields: k}}
+		},
+		func(k map[string]*commonpb.Payload) proto.Message {
+			return &historypb.History{Events: []*historypb.HistoryEvent{{EventId: 1, EventType: enumspb.EVENT_TYPE_UPSERT_WORKFLOW_SEARCH_ATTRIBUTES,
+				Attributes: &historypb.HistoryEvent_UpsertWorkflowSearchAttributesEventAttributes{UpsertWorkflowSearchAttributesEventAttributes: &historypb.UpsertWorkflowSearchAttributesEventAttributes{SearchAttributes: &commonpb.SearchAttributes{IndexedFields: k}}}}}}
+		},
+		func(k map[string]*commonpb.Payload) proto.Message {
+			blob, _ := evSerializer.SerializeEvents([]*historypb.HistoryEvent{{EventId: 1, EventType: enumspb.EVENT_TYPE_UPSERT_WORKFLOW_SEARCH_ATTRIBUTES,
+				Attributes: &historypb.HistoryEvent_UpsertWorkflowSearchAttributesEventAttributes{UpsertWorkflowSearchAttributesEventAttributes: &historypb.UpsertWorkflowSearchAttributesEventAttributes{SearchAttributes: &commonpb.SearchAttributes{IndexedFields: k}}}}})
+			return &adminservice.GetWorkflowExecutionRawHistoryV2Response{HistoryBatches: []*commonpb.DataBlob{blob}}
+		},
+	} {
+		for _, ks := range [][]string{{"a", "b"}, {"x", "y"}, {"a", "b", "x", "y", "Other"}, {"b"}, {"a"}} {
+			for rep := 0; rep < 8; rep++ { // Go map order is random: repeat
+				keys := map[string]*commonpb.Payload{}
+				for _, k := range ks {
+					keys[k] = &commonpb.Payload{Data: []byte("v-" + k)}
+				}
+				m := mk(keys)
+				orig := proto.Clone(m)
+				_, err1 := saFwd.TranslateRequest(m)
+				ref := proto.Clone(orig)
+				refTranslate(ref.ProtoReflect(), refOpts{sa: toGoMap(saMap)})
+				mid := proto.Clone(m)
+				_, err2 := saBack.TranslateRequest(m)
+				a, b := proto.Clone(m), proto.Clone(orig)
+				for _, x := range []proto.Message{a, b, mid, ref} {
+					canonBlobs(x.ProtoReflect())
+				}
+				op := fmt.Sprintf("keys %s %s", encMap(saMap), strings.Join(ks, ","))
+				e.Emit(fmt.Sprintf("# sacarrier %d %v", ci, ks), "#")
+				e.Evals++
+				if err1 != nil || err2 != nil || !proto.Equal(mid, ref) || !proto.Equal(a, b) {
+					e.Violation(map[string]any{"what": fmt.Sprintf("search-attribute keys %v with mapping %s in carrier %d: forward equals simultaneous renaming=%v, round trip restores=%v (%v %v)", ks, encMap(saMap), ci, proto.Equal(mid, ref), proto.Equal(a, b), err1, err2), "ops": []string{op}})
+				}
+			}
+		}
+	}
+	e.Stats["extra"].(map[string]any)["sa_roundtrips_that_renamed_something"] = saTouched
 	e.Sample([]string{"bimap a:b,c:b", "tr a:b,b:c a", "dir 1 local-ns:remote-ns,l2:r2 remote-ns req"})
 }
 
@@ -260,10 +342,109 @@ func TestC14(t *testing.T) {
 	mp := [][2]string{{"CustomKeywordField", "Keyword01"}, {"CustomIntField", "Int01"}, {"x", "y"}}
 	tr := interceptor.NewSearchAttributeTranslator(log.NewNoopLogger(), map[string]map[string]string{"ns-id": toGoMap(mp)}, map[string]map[string]string{"ns-id": toGoMap(invPairs(mp))})
 	keyPool := []string{"CustomKeywordField", "CustomIntField", "x", "Other", "CustomKeyword", "customkeywordfield", "z", "w"}
+	// a one-to-one mapping whose targets are sources too (chain a->b->c, swap x<->y). Key sets may hold several of the
+	// overlapping keys at once; they avoid only a target that is not itself renamed ("c"): the simultaneous renaming is
+	// then collision free, and anything but a simultaneous renaming loses or misplaces a key
+	mpOv := [][2]string{{"a", "b"}, {"b", "c"}, {"x", "y"}, {"y", "x"}}
+	trOv := interceptor.NewSearchAttributeTranslator(log.NewNoopLogger(), map[string]map[string]string{"ns-id": toGoMap(mpOv)}, map[string]map[string]string{"ns-id": toGoMap(invPairs(mpOv))})
+	keyPoolOv := []string{"a", "b", "x", "y", "Other", "z"}
+	isSAField := func(fd protoreflect.FieldDescriptor) bool {
+		return fd.Message() != nil && fd.Message().FullName() == "temporal.api.common.v1.SearchAttributes" && !fd.IsList()
+	}
 	// (1) every structural path to a search-attributes container, on real messages
 	roots := append([]int{}, g.Roots...)
 	sort.Ints(roots)
 	seen := map[string]bool{}
+	doPath := func(p tPath, mp [][2]string, tr interceptor.Translator, keyPool []string, padMode int) {
+		nk := 1 + rng.IntN(4)
+		keys := map[string]*commonpb.Payload{}
+		var klist []string
+		for len(keys) < nk {
+			kk := keyPool[rng.IntN(len(keyPool))]
+			if _, ok := keys[kk]; !ok {
+				keys[kk] = &commonpb.Payload{Data: []byte("v-" + kk), Metadata: map[string][]byte{"encoding": []byte("json/plain")}}
+				klist = append(klist, kk)
+			}
+		}
+		sort.Strings(klist)
+		m, err := buildAlong(g, p, func(f reflect.Value) {
+			if f.Type() == payloadMapType {
+				f.Set(reflect.ValueOf(keys))
+			} else {
+				f.Set(reflect.ValueOf(&commonpb.SearchAttributes{IndexedFields: keys}))
+			}
+		})
+		if err != nil {
+			e.Count("unbuildable_path")
+			return
+		}
+		if padMode > 0 {
+			// batch context: the event the path leads to sits among other events of the same blob, including events
+			// of the types that can carry search attributes but carry none (or an empty / unmapped / mapped set)
+			unset, set := padEvents(isSAField, func(attrs protoreflect.Message, fd protoreflect.FieldDescriptor) {
+				sa := &commonpb.SearchAttributes{}
+				switch rng.IntN(3) {
+				case 1:
+					sa.IndexedFields = map[string]*commonpb.Payload{"Other": {Data: []byte("v-Other")}}
+				case 2:
+					sa.IndexedFields = map[string]*commonpb.Payload{keyPool[0]: {Data: []byte("v-pad")}}
+				}
+				attrs.Set(fd, protoreflect.ValueOfMessage(sa.ProtoReflect()))
+			})
+			mapEventBlobs(m.ProtoReflect(), func(evs []*historypb.HistoryEvent) []*historypb.HistoryEvent {
+				pick := func(l []*historypb.HistoryEvent) *historypb.HistoryEvent { return l[rng.IntN(len(l))] }
+				switch padMode {
+				case 1: // an SA-capable event WITHOUT search attributes first
+					return append([]*historypb.HistoryEvent{plainPadEvent(90), pick(unset)}, evs...)
+				case 2: // ... last
+					return append(append([]*historypb.HistoryEvent{}, evs...), pick(unset), plainPadEvent(91))
+				case 3: // several, with and without, around it
+					return append(append([]*historypb.HistoryEvent{pick(unset), pick(set)}, evs...), pick(set), pick(unset))
+				default: // only plain events before
+					return append([]*historypb.HistoryEvent{plainPadEvent(90), plainPadEvent(91)}, evs...)
+				}
+			})
+			e.Count(fmt.Sprintf("batch_context_%d", padMode))
+		}
+		ref := proto.Clone(m)
+		_, terr := tr.TranslateRequest(m)
+		leaf, lerr := readLeaf(g, p, m)
+		var got map[string]*commonpb.Payload
+		if lerr == nil {
+			if leaf.Type() == payloadMapType {
+				got = leaf.Interface().(map[string]*commonpb.Payload)
+			} else if sa, ok := leaf.Interface().(*commonpb.SearchAttributes); ok && sa != nil {
+				got = sa.IndexedFields
+			}
+		}
+		var gk []string
+		valuesOK := true
+		for k2, v := range got {
+			gk = append(gk, k2)
+			orig := k2
+			for _, pr := range mp {
+				if pr[1] == k2 {
+					orig = pr[0]
+				}
+			}
+			if string(v.GetData()) != "v-"+orig {
+				valuesOK = false
+			}
+		}
+		sort.Strings(gk)
+		op := fmt.Sprintf("keys %s %s", encMap(mp), strings.Join(klist, ","))
+		e.Emit(op, strings.Join(gk, ","))
+		e.Emit("sapath "+p.opString(), map[bool]string{true: "found", false: "missed"}[terr == nil && lerr == nil && renamed(klist, gk, mp)])
+		e.Evals++
+		e.Distinct(fnv(p.opString() + op))
+		refTranslate(ref.ProtoReflect(), refOpts{sa: toGoMap(mp)})
+		a, b := proto.Clone(m), ref
+		canonBlobs(a.ProtoReflect())
+		canonBlobs(b.ProtoReflect())
+		if terr != nil || !valuesOK || len(gk) != len(klist) || !proto.Equal(a, b) {
+			e.Violation(map[string]any{"what": fmt.Sprintf("search attributes at %s (root %s, mapping %s, batch context %d): keys %v -> %v, values untouched=%v, err=%v, equals reference=%v", describePath(g, p), g.Types[p.Root].Go, encMap(mp), padMode, klist, gk, valuesOK, terr, proto.Equal(a, b)), "ops": []string{op, "sapath " + p.opString()}})
+		}
+	}
 	for _, r := range roots {
 		if g.RootSvc[r] == "workflow" {
 			continue // the translator is not applied to WorkflowService traffic
@@ -274,66 +455,18 @@ func TestC14(t *testing.T) {
 				continue
 			}
 			seen[k] = true
-			// random key set that does not collide with mapping targets
-			nk := 1 + rng.IntN(4)
-			keys := map[string]*commonpb.Payload{}
-			var klist []string
-			for len(keys) < nk {
-				kk := keyPool[rng.IntN(len(keyPool))]
-				if _, ok := keys[kk]; !ok {
-					keys[kk] = &commonpb.Payload{Data: []byte("v-" + kk), Metadata: map[string][]byte{"encoding": []byte("json/plain")}}
-					klist = append(klist, kk)
-				}
-			}
-			sort.Strings(klist)
-			m, err := buildAlong(g, p, func(f reflect.Value) {
-				if f.Type() == payloadMapType {
-					f.Set(reflect.ValueOf(keys))
-				} else {
-					f.Set(reflect.ValueOf(&commonpb.SearchAttributes{IndexedFields: keys}))
-				}
-			})
-			if err != nil {
-				e.Count("unbuildable_path")
-				continue
-			}
-			ref := proto.Clone(m)
-			_, terr := tr.TranslateRequest(m)
-			leaf, lerr := readLeaf(g, p, m)
-			var got map[string]*commonpb.Payload
-			if lerr == nil {
-				if leaf.Type() == payloadMapType {
-					got = leaf.Interface().(map[string]*commonpb.Payload)
-				} else if sa, ok := leaf.Interface().(*commonpb.SearchAttributes); ok && sa != nil {
-					got = sa.IndexedFields
-				}
-			}
-			var gk []string
-			valuesOK := true
-			for k2, v := range got {
-				gk = append(gk, k2)
-				orig := k2
-				for _, pr := range mp {
-					if pr[1] == k2 {
-						orig = pr[0]
+			doPath(p, mp, tr, keyPool, 0)
+			doPath(p, mpOv, trOv, keyPoolOv, 0)
+			if hasBlobStep(p) {
+				for pm := 1; pm <= 4; pm++ {
+					if pm == 1 || e.Thorough() || rng.IntN(2) == 0 {
+						if rng.IntN(2) == 0 {
+							doPath(p, mp, tr, keyPool, pm)
+						} else {
+							doPath(p, mpOv, trOv, keyPoolOv, pm)
+						}
 					}
 				}
-				if string(v.GetData()) != "v-"+orig {
-					valuesOK = false
-				}
-			}
-			sort.Strings(gk)
-			op := fmt.Sprintf("keys %s %s", encMap(mp), strings.Join(klist, ","))
-			e.Emit(op, strings.Join(gk, ","))
-			e.Emit("sapath "+p.opString(), map[bool]string{true: "found", false: "missed"}[terr == nil && lerr == nil && renamed(klist, gk, mp)])
-			e.Evals++
-			e.Distinct(fnv(p.opString()))
-			refTranslate(ref.ProtoReflect(), refOpts{sa: toGoMap(mp)})
-			a, b := proto.Clone(m), ref
-			canonBlobs(a.ProtoReflect())
-			canonBlobs(b.ProtoReflect())
-			if terr != nil || !valuesOK || len(gk) != len(klist) || !proto.Equal(a, b) {
-				e.Violation(map[string]any{"what": fmt.Sprintf("search attributes at %s (root %s): keys %v -> %v, values untouched=%v, err=%v, equals reference=%v", describePath(g, p), g.Types[p.Root].Go, klist, gk, valuesOK, terr, proto.Equal(a, b)), "ops": []string{"sapath " + p.opString()}})
 			}
 		}
 	}
@@ -430,10 +563,13 @@ func TestC16(t *testing.T) {
 		}
 		return "/" + workflowSvc + "/DescribeWorkflowExecution"
 	}
+	var forwarded proto.Message // what the handler (the local cluster) received
 	run := func(m proto.Message, full string) (string, bool) {
 		called := false
+		forwarded = nil
 		_, err := ic.Intercept(context.Background(), m, &grpc.UnaryServerInfo{FullMethod: full}, func(ctx context.Context, req any) (any, error) {
 			called = true
+			forwarded, _ = req.(proto.Message)
 			return nil, nil
 		})
 		if status.Code(err) == codes.PermissionDenied {
@@ -497,6 +633,105 @@ func TestC16(t *testing.T) {
 				}
 				if dec == "denied" && called {
 					e.Violation(map[string]any{"what": "refused request reached the handler", "ops": []string{op}})
+				}
+			}
+			// batch context and damaged blobs: the event the path leads to sits among other events of its blob; one of them
+			// may carry invalid UTF-8 that the blob repair fixes (failure message: the names must still be checked) or
+			// cannot fix (any other string: the request must be refused, not passed on unchecked)
+			if hasBlobStep(p) {
+				for _, name := range []string{"allowed-ns", "forbidden-ns"} {
+					for variant := 0; variant < 3; variant++ {
+						if !e.Thorough() && variant > 0 && name == "allowed-ns" && rng.IntN(3) != 0 {
+							continue
+						}
+						m, err := buildAlong(g, p, func(f reflect.Value) { f.SetString(name) })
+						if err != nil {
+							continue
+						}
+						mapEventBlobs(m.ProtoReflect(), func(evs []*historypb.HistoryEvent) []*historypb.HistoryEvent {
+							var extra *historypb.HistoryEvent
+							switch variant {
+							case 0:
+								extra = plainPadEvent(91)
+							case 1:
+								extra = failurePadEvent(91)
+							default:
+								extra = plainPadEvent(91)
+								extra.GetWorkflowTaskCompletedEventAttributes().Identity = invalidIdentityMarker
+							}
+							if rng.IntN(2) == 0 {
+								return append([]*historypb.HistoryEvent{plainPadEvent(90), extra}, evs...)
+							}
+							return append(append([]*historypb.HistoryEvent{plainPadEvent(90)}, evs...), extra)
+						})
+						// the names the visitor can see: for a repaired blob, those that survive the repair's passage through the
+						// v1.22 schema (fields unknown to that schema are DROPPED from the repaired blob, names in them included)
+						seenSrc := m
+						if variant == 1 {
+							seenSrc = proto.Clone(m)
+							legacyRoundTripBlobs(seenSrc.ProtoReflect())
+						}
+						var all, orig []string
+						listNsValues(seenSrc.ProtoReflect(), &all)
+						listNsValues(m.ProtoReflect(), &orig)
+						if len(all) != len(orig) {
+							e.Count("repair_drops_fields_unknown_to_v1_22")
+						}
+						var enc []string
+						allAllowed := true
+						for _, n := range all {
+							enc = append(enc, encName(n))
+							allAllowed = allAllowed && (n == "allowed-ns" || n == "also-ok")
+						}
+						if len(enc) == 0 {
+							enc = []string{"."}
+						}
+						if variant > 0 && corruptBlobs(m.ProtoReflect()) == 0 {
+							e.Count("blob_not_corrupted")
+							continue
+						}
+						dec, called := run(m, fullFor(r))
+						seenByModel := strings.Join(enc, ",")
+						if variant == 2 {
+							seenByModel = "!" // the visitor fails on the blob
+						}
+						op := fmt.Sprintf("unary 1 %s %s %s", pstr, fullFor(r), seenByModel)
+						e.Emit(op, dec)
+						e.Evals++
+						e.Distinct(fnv(op + p.opString() + fmt.Sprint(variant)))
+						e.Count(fmt.Sprintf("blob_variant%d_%s_%s", variant, name, dec))
+						// what reached the local cluster must not name a namespace outside the allow-list
+						reached := ""
+						if called && forwarded != nil {
+							var got []string
+							listNsValues(forwarded.ProtoReflect(), &got)
+							for _, n := range got {
+								if n != "allowed-ns" && n != "also-ok" {
+									reached = n
+								}
+							}
+							if !canonBlobs(proto.Clone(forwarded).ProtoReflect()) {
+								reached = "<a history blob that does not decode>"
+							}
+						}
+						what := ""
+						switch {
+						case reached != "":
+							what = fmt.Sprintf("reached the local cluster naming %q", reached)
+						case dec == "denied" && called:
+							what = "was refused and still reached the handler"
+						case variant == 2 && dec != "denied":
+							what = "holds a blob that can neither be decoded nor repaired, and was passed on unchecked"
+						case variant < 2 && allAllowed && dec != "forward":
+							what = "names only allowed namespaces and was refused"
+						case variant == 0 && name == "forbidden-ns" && dec != "denied":
+							what = "was not refused"
+						}
+						if what != "" {
+							e.Violation(map[string]any{"what": fmt.Sprintf("request naming %q at %s (root %s) inside a history batch of several events (%s) %s (decision %s, handler called %v)", name, describePath(g, p), g.Types[r].Go,
+								[]string{"all valid", "one failure message with invalid UTF-8", "one non-failure string with invalid UTF-8"}[variant], what, dec, called), "ops": []string{op}})
+						}
+					}
 				}
 			}
 			// combination: an allowed name on this path and a forbidden one on another path of the same root
